@@ -25,11 +25,55 @@ ANCHORS = [("leuvenmapmatching/matcher/base.py", "BaseMatching.next"),
            ("leuvenmapmatching/matcher/base.py", "LatticeColumn.prune"),
            ("leuvenmapmatching/matcher/base.py", "BaseMatcher.match")]
 FLOORS = {"results_compared": 2500, "debug_runs_with_stopped_entries": 700, "stopped_entries_materialised": 8000, "stream_handler_runs": 300,
-          "with_nonemitting": 600, "with_width": 500, "early_stops_compared": 300, "sqlite_backend_pairs": 200}
+          "with_nonemitting": 600, "with_width": 500, "early_stops_compared": 300, "sqlite_backend_pairs": 200, "merge_class_pairs": 400, "merge_class_pairs_with_stopped_nonemitting_entry": 50}
 ASSUMPTIONS = ["identical means: returned states, index, keys and log-probabilities of the best path compare equal (==)"]
 
 
+def gen_merge_case(rng):
+    """two one-way roads merge into one node, the trace starts between them (a little closer to one), follows the other and
+    then skips a road, so that the SAME non-emitting state is reached from two parents: one whose path is (about) as
+    improbable as the probability cut-off allows, one that is fine.  At DEBUG the rejected candidate is materialised as a
+    stopped entry under the same key before the good one arrives."""
+    u = rng.choice([1.0, 1.0, 0.1, 30.0])
+    gap = rng.uniform(3.0, 9.0)
+    pts = {"A": (-20.0, 0.0), "C": (-20.0 + rng.uniform(-2, 2), -gap), "B": (0.0, 0.0), "D": (0.0, rng.uniform(6, 12)), "F": (-30.0, 10.0),
+           "G": (rng.uniform(5, 15), rng.uniform(-5, 5))}
+    pts["F"] = (-30.0, pts["D"][1])
+    edges = [("A", "B"), ("C", "B"), ("B", "D"), ("D", "F"), ("B", "G")]
+    if rng.random() < 0.3:
+        edges += [("D", "B")]
+    names = list(pts)
+    ids = rng.sample(range(1, 60), len(names))
+    lab = dict(zip(names, ids if rng.random() < 0.6 else ["N%d" % v for v in ids]))
+    rng.shuffle(edges)
+    nodes = [[lab[k], [v[0] * u, v[1] * u]] for k, v in pts.items()]
+    rng.shuffle(nodes)
+    m = {"nodes": nodes, "edges": [[lab[a], lab[b]] for a, b in edges], "latlon": False, "kind": "merge"}
+    f = rng.uniform(0.45, 0.7)   # 0.5 = exactly between the two roads at x = -19
+    tr = [[-19.0 * u, -gap * f * u], [rng.uniform(-14, -8) * u, rng.uniform(-0.8, 0.8) * u], [rng.uniform(-8, -2) * u, (pts["D"][1] + rng.uniform(-0.8, 0.8)) * u]]
+    if rng.random() < 0.3:
+        tr.append([rng.uniform(-25, -15) * u, (pts["D"][1] + rng.uniform(-0.8, 0.8)) * u])
+    cfg = gen.gen_cfg(rng, families=("simple", "simple", "distance", "newsonkrumm"), ne=True, width="maybe", cut=False)
+    cfg["obs_noise"] = rng.choice([2.0, 3.0, 4.0]) * u
+    cfg["obs_noise_ne"] = rng.choice([None, 10.0 * u, 6.0 * u])
+    cfg["max_dist"] = rng.choice([8.0, 10.0, 15.0]) * u
+    cfg["max_dist_init"] = None
+    cfg["min_prob_norm"] = rng.choice([0.3, 0.4, 0.5, 0.52, 0.6, 0.7])
+    case = {"map": m, "trace": tr, "cfg": cfg, "merge": True}
+    if rng.random() < 0.5:
+        mcase.tighten(case, rng, what=("min_prob_norm",))
+    return case
+
+
 def gen_case(rng, i, tier):
+    if i % 10 == 7:
+        case = gen_merge_case(rng)
+        case["ops"] = gen.gen_history(rng, len(case["trace"]), case["cfg"]["width"], allow_cwd=False, max_ops=2)
+        if rng.random() < 0.6:
+            case["ops"] = [{"op": "match", "k": len(case["trace"]), "unique": rng.random() < 0.5}]
+        case["handler"] = rng.choice(["null", "null", "stream"])
+        case["backend"] = "inmem"
+        return case
     case = mcase.gen_mcase(rng, families=gen.FAMILIES_ALL, ne=(rng.random() < 0.6), width="maybe", tighten_p=0.4, sparse_p=0.3, max_obs=8)
     cfg = case["cfg"]
     if cfg["max_dist"] is None and cfg["min_prob_norm"] is None:
@@ -42,6 +86,9 @@ def gen_case(rng, i, tier):
     # the map backend is part of "a match": a fifth of the integer-labelled cases runs on SqliteMap (built at the same level)
     ints = all(isinstance(l, int) for l, _ in case["map"]["nodes"]) and not case["map"].get("linked")
     case["backend"] = "sqlite" if (ints and rng.random() < 0.25) else "inmem"
+    if case["backend"] == "sqlite":
+        case["sqlite_bulk"] = rng.random() < 0.5
+        case["sqlite_prior"] = build.prior_spec(rng) if rng.random() < 0.3 else None
     return case
 
 
@@ -57,7 +104,7 @@ def run(case, debug, scratch=None):
             env.logger.addHandler(h)
     try:
         if case.get("backend") == "sqlite" and scratch:
-            sm = mp = build.make_sqlite(case["map"], scratch)
+            sm = mp = build.make_sqlite(case["map"], scratch, bulk=case.get("sqlite_bulk", True), prior=case.get("sqlite_prior"))
         else:
             mp = build.make_inmem(case["map"])
         mt = build.make_matcher(mp, case["cfg"])
@@ -82,6 +129,12 @@ def check_case(ctx, case):
     mt1, r1 = run(case, True, ctx.scratch)
     if case.get("backend") == "sqlite":
         ctx.count("sqlite_backend_pairs")
+    if case.get("merge"):
+        ctx.count("merge_class_pairs")
+        # the shape is reached when the DEBUG run holds a live non-emitting entry that has a stopped sibling candidate,
+        # i.e. one key was offered by a rejected and by an accepted parent
+        if mt1.lattice and any(e.stop for col in mt1.lattice.values() for layer in col.o[1:] for e in layer.values()):
+            ctx.count("merge_class_pairs_with_stopped_nonemitting_entry")
     ctx.evaluated(2)
     stopped = 0
     if mt1.lattice:
